@@ -116,6 +116,10 @@ def run(out: Outcome, drv, prop):
                 f"every threshold, lengths 0..12 incl. 0,1,2,3, missing values, malformed parameter stream) plus a small "
                 f"bounded-exhaustive core; a case is non-trivial when its observed flag vector has >= 2 distinct values or the call "
                 f"raised; distinct by SHA-1 of the canonical logical case")
+    corp = fx.corpus_items(prop)
+    if corp:
+        fx.run_cases(out, drv, corp, verdict, WHAT[prop])
+        out.extra["corpus_cases"] = len(corp)
     ex = exhaustive_items(prop, out.tier)
     if ex:
         fx.run_cases(out, drv, ex, verdict, WHAT[prop])
